@@ -473,6 +473,13 @@ func runProperty(id, tier string) int {
 						reproduced = true
 					}
 				}
+				if !reproduced && len(nr.Failed) > 0 {
+					// the native run violates the property on this input too, through
+					// another assertion of the same harness (e.g. where the engine copies
+					// what the real code aliases): still a confirmed violation
+					reproduced = true
+					v.Msg += fmt.Sprintf(" (natively the failing assertion is %v)", nr.Failed)
+				}
 			case "panic":
 				reproduced = nr.Outcome == "panic"
 			case "hang":
